@@ -167,6 +167,15 @@ def seq_at(I, v, i):
         return wrap(v.ety, v.at(iz))
     if isinstance(v, SRange):
         return SInt(simp(to_z3(v.start) + iz * v.step))
+    if isinstance(v, (bytes, bytearray, str, tuple, list)):
+        c = concrete_of(iz)
+        if c is not None and not (0 <= c < len(v)):
+            if I.spec:
+                # out of range: an unconstrained value (only reachable under a false guard)
+                if isinstance(v, (bytes, bytearray)):
+                    return SInt(I.path.fresh_int("oob"))
+                return SBytes(z3.Const(I.path.fresh_name("oob"), S.SeqI), "str" if isinstance(v, str) else "bytes")
+            I.raise_py(IndexError, "index out of range")
     if isinstance(v, (bytes, bytearray)):
         c = concrete_of(iz)
         if c is not None:
@@ -188,6 +197,9 @@ def seq_at(I, v, i):
         except Unsupported:
             raise Unsupported("symbolic index into a tuple of non-scalar values")
         if not zs:
+            if I.spec:
+                # out of range whatever the index: an unconstrained value (only reachable under a false guard)
+                return SBytes(z3.Const(I.path.fresh_name("oob"), S.SeqI), "bytes")
             raise Unsupported("symbolic index into empty tuple")
         e = zs[-1]
         for k in range(len(zs) - 2, -1, -1):
@@ -255,6 +267,9 @@ def get_item(I, v, idx):
             k = kind_of(v)
             return SBytes(simp(z3.SubSeq(as_seq(I, v), lo, ln)), "bytes" if k == "bytearray" and False else k)
         if isinstance(v, SSeq):
+            if not (z3.is_int_value(lo) and lo.as_long() == 0):
+                I.path.term_maps.append(lambda t, lo=lo: t + lo)
+                I.path.term_maps.append(lambda t, lo=lo: t - lo)
             return SSeq(v.arr, ln, v.ety, v.kind, simp(to_z3(v.off) + lo))
         if isinstance(v, (tuple, list)):
             cl, cn = concrete_of(lo), concrete_of(ln)
@@ -382,7 +397,9 @@ def list_extend(I, lst: SSeq, other):
             list_append(I, lst, x)
         return
     if isinstance(other, SSeq):
-        raise Unsupported("extend of a symbolic list by a symbolic sequence (needs a loop-free concat model)")
+        r = seq_concat(I, lst, other)
+        lst.arr, lst.n, lst.off = r.arr, r.n, r.off
+        return
     raise Unsupported("list.extend argument")
 
 
@@ -602,6 +619,10 @@ def seq_concat(I, a, b):
             list_append(I, res, x)
         res.kind = kind
         return res
+    if isinstance(a, SSeq):
+        a = SSeq(a.arr, a.n, a.ety, a.kind, a.off)  # snapshot: the caller may mutate the box afterwards
+    if isinstance(b, SSeq):
+        b = SSeq(b.arr, b.n, b.ety, b.kind, b.off)
     ety = a.ety if isinstance(a, SSeq) else b.ety
     kind = a.kind if isinstance(a, SSeq) else b.kind
     p = I.path
@@ -620,6 +641,8 @@ def seq_concat(I, a, b):
         )
 
     p.qhyps.append(q)
+    p.term_maps.append(lambda t, na=na: t - na)
+    p.term_maps.append(lambda t, na=na: t + na)
     return res
 
 
